@@ -192,6 +192,7 @@ theorem scanStep_spec (cfg : Cfg) (hd : cfg.d ≠ .go) (fuel : Nat) (hF : src.si
                           intro hcm
                           exact scanCommentTok_spec cfg hd fuel hF c false (by simpa using hcm.1)
                         · intro _
+                          unfold opFinish
                           split
                           · -- operator
                             rename_i t hlk
